@@ -36,10 +36,199 @@ def run_flatten_case(p):
     return None
 
 
+def run_the_case(p):
+    """C06: the() against the number of satisfying objects, twice, consistent with an()"""
+    O.reset_registry()
+    rng = random.Random(p['seed'])
+    cls = O.EqItem if p.get('equal_instances') else O.Item
+    if p.get('equal_instances'):
+        dom = [O.EqItem(rng.choice('ab'), rng.choice([1, 2])) for _ in range(p.get('n', 3))]
+        cond = ('cmp', rng.choice(['eq', 'ge', 'lt']), ('attr', 0, 'size'), ('lit', rng.choice([1, 2])))
+    else:
+        dom = O.make_domain(rng, p.get('n', 3))
+        cond = O.gen_cond(rng, 1, p.get('depth', 2), vocab=tuple(p.get('vocab', ('cmp', 'name', 'truth', 'contains'))),
+                          neg=True, nested_neg=True)
+    sat = [o for o in dom if O.holds(cond, {0: o})]
+    want = ('value', id(sat[0])) if len(sat) == 1 else (('none',) if not sat else ('multiple',))
+    try:
+        got = O.outcome_of_the(dom, cond, cls=cls, inside=p.get('inside'))
+    except Exception as e:  # noqa
+        return {'exception': repr(e), 'trace': traceback.format_exc(limit=4)}
+    if got != [want, want]:
+        return {'condition': repr(cond), 'domain': repr(dom), 'satisfying': len(sat), 'got': repr(got), 'want': repr([want, want])}
+    return None
+
+
+def run_mode_case(p):
+    """C08 / C09: a random interleaving of block entries / exits and result-iterator steps; after every step the mode
+    and the expression stack must be those of the reference stack machine, and results must not depend on the mode"""
+    from entity_query_language import symbolic_mode, rule_mode, let, an, entity
+    O.reset_registry()
+    # the result cache is switched off here: abandoned evaluations with the cache on are the subject of C04 / C05
+    (O.enable_caching if p.get('caching') else O.disable_caching)()
+    rng = random.Random(p['seed'])
+    dom = O.make_domain(rng, 4)
+    with symbolic_mode():
+        x = let(type_=O.Item, domain=dom)
+        if p.get('predicates'):
+            q = an(entity(x, O.is_big_fn(x), O.IsBig(x, 0))) if rng.random() < 0.5 else an(entity(x, O.is_big_fn(x)))
+        else:
+            q = an(entity(x, x.size >= 1))
+    want_all = [o for o in dom if (o.size > 1 if p.get('predicates') else o.size >= 1)]
+    base = O.mode_state()
+    ref = [base]              # reference stack of (mode, stack depth)
+    blocks = []               # open context managers
+    iters = []
+    log = []
+    try:
+        for step in range(p.get('steps', 10)):
+            # one live iterator per query at a time: interleaved iterators of one query share its evaluation state
+            ops = ['enter_q', 'enter_r'] + ([] if iters else ['new_iter', 'new_iter'])
+            if blocks:
+                ops += ['leave', 'leave_exc']
+            if iters:
+                ops += ['advance', 'advance', 'close', 'drop', 'finish']
+            op = rng.choice(ops)
+            log.append(op)
+            if op in ('enter_q', 'enter_r'):
+                cm = symbolic_mode() if op == 'enter_q' else rule_mode()
+                cm.__enter__()
+                blocks.append(cm)
+                ref.append(('EQLMode.Query' if op == 'enter_q' else 'EQLMode.Rule', ref[-1][1]))
+            elif op == 'leave':
+                blocks.pop().__exit__(None, None, None)
+                ref.pop()
+            elif op == 'leave_exc':
+                cm = blocks.pop()
+                try:
+                    try:
+                        raise KeyError('boom')
+                    except KeyError as e:
+                        if not cm.__exit__(KeyError, e, e.__traceback__):
+                            raise
+                except KeyError:
+                    pass
+                ref.pop()
+            elif op == 'new_iter':
+                iters.append([q.evaluate(), []])
+            elif op == 'advance':
+                it = rng.choice(iters)
+                try:
+                    it[1].append(next(it[0]))
+                except StopIteration:
+                    if not O.same_list_by_identity(it[1], want_all):
+                        return {'log': log, 'what': 'results depend on the mode / history', 'got': repr(it[1]), 'want': repr(want_all)}
+                    iters.remove(it)
+            elif op == 'finish':
+                it = rng.choice(iters)
+                it[1].extend(list(it[0]))
+                iters.remove(it)
+                if not O.same_list_by_identity(it[1], want_all):
+                    return {'log': log, 'what': 'results depend on the mode / history', 'got': repr(it[1]), 'want': repr(want_all)}
+            elif op == 'close':
+                it = rng.choice(iters)
+                it[0].close()
+                iters.remove(it)
+            elif op == 'drop':
+                it = rng.choice(iters)
+                iters.remove(it)
+                del it
+                import gc
+                gc.collect()
+            if O.mode_state() != ref[-1]:
+                return {'log': log, 'what': 'mode / expression stack differs from the reference', 'got': O.mode_state(), 'want': ref[-1]}
+            if p.get('single_iterator') and len(iters) > 1:
+                pass
+    except Exception as e:  # noqa
+        return {'log': log, 'exception': repr(e), 'trace': traceback.format_exc(limit=5)}
+    finally:
+        for it in iters:
+            try:
+                it[0].close()
+            except Exception:  # noqa
+                pass
+        while blocks:
+            blocks.pop().__exit__(None, None, None)
+        _ = O._symbolic_mode.set(None)
+        del O.SymbolicExpression._symbolic_expression_stack_[:]
+        O.enable_caching()
+    return None
+
+
+def run_subquery_case(p):
+    """C15: an(entity(v, c)) used as a condition / operand means c inlined"""
+    from entity_query_language import symbolic_mode, let, an, entity, set_of, and_, or_
+    O.reset_registry()
+    rng = random.Random(p['seed'])
+    d0 = O.make_domain(rng, 3)
+    d1 = O.make_domain(rng, 3)
+    c0 = O.gen_cond(rng, 1, 1, vocab=('cmp', 'name'), neg=False)
+    c1 = ('cmp', rng.choice(['eq', 'lt', 'ge']), ('attr', 0, 'size'), ('attr', 1, 'size'))
+    conn = rng.choice(['and', 'or']) if p.get('connectives', True) else 'and'
+    try:
+        with symbolic_mode():
+            x = let(type_=O.Item, domain=d0)
+            y = let(type_=O.Item, domain=d1)
+            sub = an(entity(x, O.build(c0, [x])))
+            join = O.build(c1, [x, y])
+            cond = and_(sub, join) if conn == 'and' else or_(sub, join)
+            q = an(set_of([x, y], cond))
+        got = sorted((id(r[x]), id(r[y])) for r in q.evaluate())
+        def sat(a, b):
+            l, r = O.holds(c0, {0: a}), O.holds(c1, {0: a, 1: b})
+            return (l and r) if conn == 'and' else (l or r)
+        want = sorted((id(a), id(b)) for a in d0 for b in d1 if sat(a, b))
+    except Exception as e:  # noqa
+        return {'exception': repr(e), 'trace': traceback.format_exc(limit=4)}
+    if set(got) != set(want):
+        return {'sub': repr(c0), 'join': repr(c1), 'connective': conn, 'got_rows': len(got), 'want_rows': len(want),
+                'missing': len(set(want) - set(got)), 'extra': len(set(got) - set(want))}
+    return None
+
+
+def run_select_case(p):
+    """C02 / C19: selected expressions (variables and attributes of them, also of variables the condition does not
+    mention): one row per satisfying assignment, each expression with its value under that assignment"""
+    O.reset_registry()
+    rng = random.Random(p['seed'])
+    try:
+        if p.get('single_attr'):
+            dom = O.make_domain(rng, 4, falsy=True)
+            for o in dom:
+                if rng.random() < 0.3:
+                    o.name = None
+            attr = rng.choice(['name', 'size', 'flag'])
+            cond = O.gen_cond(rng, 1, 1, vocab=('cmp',), neg=False) if rng.random() < 0.5 else None
+            got, want, q = O.run_select_attr(dom, attr, cond)
+            if got != want:
+                return {'query': f"an(entity(x.{attr}, {cond!r}))", 'domain': repr(dom), 'got': repr(got), 'want': repr(want)}
+            return None
+        doms = [O.make_domain(rng, 3), O.make_domain(rng, 2)]
+        cond = O.gen_cond(rng, 2, 1, vocab=('cmp', 'name'), neg=False) if rng.random() < 0.7 else None
+        if cond is not None and rng.random() < 0.5:
+            cond = O.gen_cond(rng, 1, 1, vocab=('cmp', 'name'), neg=False)     # mentions only variable 0
+        spec = rng.choice([[(0, None), (0, 'name'), (1, None)], [(1, None), (1, 'size'), (0, None)], [(0, 'name'), (0, 'size'), (1, None)],
+                           [(0, None), (1, None), (1, 'name')]])
+        got, want, q = O.run_select_exprs(doms, cond, spec)
+        if got != want:
+            return {'select': spec, 'condition': repr(cond), 'got_rows': len(got), 'want_rows': len(want)}
+    except Exception as e:  # noqa
+        return {'exception': repr(e), 'trace': traceback.format_exc(limit=4)}
+    return None
+
+
 def run_case(p):
     """returns None if the real engine agrees with the reference, else a description of the disagreement."""
+    if p.get('kind') == 'select':
+        return run_select_case(p)
     if p.get('kind') == 'flatten':
         return run_flatten_case(p)
+    if p.get('kind') == 'the':
+        return run_the_case(p)
+    if p.get('kind') == 'modes':
+        return run_mode_case(p)
+    if p.get('kind') == 'subquery':
+        return run_subquery_case(p)
     O.reset_registry()
     doms, cond = gen_case(p)
     if p.get('caching', True):
@@ -114,6 +303,12 @@ def replay(prop, hints):
 
 
 def rerun(prop, inp):
+    if isinstance(inp, dict) and 'input' in inp and 'detail' in inp:
+        inp = inp['input']
+    if isinstance(inp, dict) and inp.get('what') in ('check', 'retrieve'):
+        import standins
+        d = standins.rerun_C20(inp)
+        return {'fails': d is not None, 'detail': d}
     d = run_case(inp)
     return {'fails': d is not None, 'detail': d}
 
